@@ -516,7 +516,7 @@ func (gb *gcpBalancer) UpdateSubConnState(sc balancer.SubConn, scs balancer.SubC
 				gb.fallbackMap[k] = sc
 			}
 		}
-		scRef.deCalls = 0
+		atomic.StoreUint32(&scRef.deCalls, 0)
 		scRef.lastResp = time.Now()
 		scRef.refreshing = false
 		scRef.refreshCnt++
